@@ -1,2 +1,6 @@
 pub mod c01;
 pub mod c02;
+pub mod c04;
+pub mod c12;
+pub mod c13;
+pub mod c14;
